@@ -296,6 +296,18 @@ func (p *c01) RunCase(ctx *runner.Ctx) runner.CaseResult {
 			op = adapt.Op{Kind: adapt.OpPut, Table: spec.Name, Item: it}
 		case 2:
 			op = mon.SetUpdate(spec.Name, k, mon.Pick(r, mon.AttrNames[1:4]), mon.Value(r, 2, opts))
+			if r.Intn(4) == 0 {
+				// grow (or create) a list: the appended elements include NULL, false and the empty string - they are
+				// elements like any other
+				u := &refmodel.Update{Actions: []refmodel.Action{{Kind: "SET", Path: refmodel.P("lg"), RHS: &refmodel.UExpr{Kind: "append", Kids: []*refmodel.UExpr{
+					{Kind: "ifne", Path: refmodel.P("lg"), Kids: []*refmodel.UExpr{{Kind: "val", Val: ":e"}}}, {Kind: "val", Val: ":v"}}}}}}
+				if r.Intn(2) == 0 {
+					u.Actions[0].RHS.Kids[0], u.Actions[0].RHS.Kids[1] = u.Actions[0].RHS.Kids[1], u.Actions[0].RHS.Kids[0]
+				}
+				tail := []val.V{val.Null(), val.Str(fmt.Sprint("e", i)), val.Bool(false), val.Str(""), val.Null()}
+				op = adapt.Op{Kind: adapt.OpUpdate, Table: spec.Name, Key: k, Update: u.Render(map[string]string{}, refmodel.RenderOpts{}), UpdAST: u,
+					Values: val.Item{":e": val.List(val.Null()), ":v": val.V{K: val.KL, L: tail[r.Intn(3) : 3+r.Intn(3)]}}}
+			}
 		case 3:
 			op = mon.RemoveUpdate(spec.Name, k, mon.Pick(r, mon.AttrNames))
 		case 4:
